@@ -624,7 +624,10 @@ def serialize_markers(
                     str(reference_gene_names[ii]) for ii in ref_idx]
 
         grp_key = "None"
-        ref_idx = src[grp_key]['reference'][()]
+        if len(taxonomy_tree.children(level=None, node=None)) < 2:
+            ref_idx = []
+        else:
+            ref_idx = src[grp_key]['reference'][()]
         marker_gene_lookup[grp_key] = [
             str(reference_gene_names[ii]) for ii in ref_idx]
     return marker_gene_lookup
